@@ -368,9 +368,10 @@ Proof.
     match goal with |- context [h_build (fst ?X) 0 (snd ?X)] => set (acc := X) in * end.
     destruct A as [FA [LA GA]]. split; [|exact I].
     eapply step_trans; [split; [exact FA | split; [exact LA | exact GA]]|].
-    apply build_step; [lia | exact GA].
+    apply build_step; [eapply Nat.le_trans; [exact L | exact LA] | exact GA].
   - (* object: clone the members, then build *)
-    assert (A : forall ms hh out, n <= List.length hh -> fresh_objs n hh ->
+    assert (A : forall (ms : list (bytes * hval)) (hh : heap) (out : list (bytes * hval)),
+              n <= List.length hh -> fresh_objs n hh ->
               Forall (fun kv => fresh_ref n (snd kv)) out ->
               let res := fold_left (fun acc kv => let c := h_clone f (fst acc) (snd kv) in
                                                   (fst c, snd acc ++ [(fst kv, snd c)])) ms (hh, out) in
@@ -384,7 +385,7 @@ Proof.
     destruct (A (obj_members h o) h [] L G (Forall_nil _)) as [SA RA].
     match goal with |- context [h_build_object (fst ?X) (snd ?X)] => set (acc := X) in * end.
     destruct SA as [FA [LA GA]].
-    destruct (build_object_step n (fst acc) (snd acc)) as [SB LB]; [lia | exact GA | exact RA |].
+    destruct (build_object_step n (fst acc) (snd acc)) as [SB LB]; [eapply Nat.le_trans; [exact L | exact LA] | exact GA | exact RA |].
     split; [eapply step_trans; [split; [exact FA | split; [exact LA | exact GA]] | exact SB] | exact LB].
 Qed.
 
@@ -438,15 +439,16 @@ Proof.
             step_ok n hh (fst acc) /\ fresh_ref n (snd acc)).
   { induction args0 as [|a r IHa]; intros hh m Lh Gh Hm; cbn [fold_left]; [split; [now apply step_refl | exact Hm]|].
     destruct (merge_fx_step n fuel hh m a Lh Gh Hm) as [S1 R1]. cbn [fst snd].
+    destruct (h_merge_fx fuel hh m a) as [h1 m1]. cbn [fst snd] in *.
     destruct S1 as [F1 [L1 G1]].
-    destruct (IHa (fst (h_merge_fx fuel hh m a)) (snd (h_merge_fx fuel hh m a))) as [S2 R2]; [lia | exact G1 | exact R1|].
+    destruct (IHa h1 m1) as [S2 R2]; [lia | exact G1 | exact R1|].
     split; [eapply step_trans; [split; [exact F1 | split; [exact L1 | exact G1]] | exact S2] | exact R2]. }
   destruct (A args (h ++ [CObj []]) (HO (List.length h))) as [SA RA];
     [rewrite app_length; cbn; unfold n; lia | exact G0 | cbn; unfold n; lia |].
   set (acc := fold_left _ args _) in *.
   destruct SA as [FA [LA GA]].
   destruct (clone_step n fuel (fst acc) (snd acc)) as [SC _];
-    [destruct S0 as [_ [L0 _]]; lia | exact GA |].
+    [destruct S0 as [_ [L0 _]]; eapply Nat.le_trans; [|exact LA]; rewrite app_length; cbn; unfold n; apply Nat.le_add_r | exact GA |].
   destruct S0 as [F0 _]. destruct SC as [FC _].
   eapply frame_trans; [exact F0|]. eapply frame_trans; [exact FA | exact FC].
 Qed.
